@@ -360,7 +360,7 @@ Qed.
 Lemma normal_locscale mu s2 k :
   normal_get_moment mu s2 k = binsum mu (fun j => sqrt_pow s2 j * normal_get_moment 0 1 j) k.
 Proof.
-  rewrite normal_get_moment_eq. unfold normal_moment. rewrite shift_binomial. unfold binsum.
+  rewrite normal_get_moment_eq. unfold normal_moment. rewrite shift_fast_eq, shift_binomial. unfold binsum.
   apply sumn_ext. intros j _. rewrite normal_get_moment_eq, normal_moment_centred, (normal_central_scale s2 j). ring.
 Qed.
 
@@ -382,7 +382,7 @@ Lemma laplace_centred_closed b i :
 Proof. rewrite !laplace_get_moment_eq, !laplace_moment_centred. apply laplace_central_closed. Qed.
 Lemma laplace_locscale mu b k : laplace_get_moment mu b k = binsum mu (laplace_get_moment 0 b) k.
 Proof.
-  rewrite laplace_get_moment_eq. unfold laplace_moment. rewrite shift_binomial. unfold binsum.
+  rewrite laplace_get_moment_eq. unfold laplace_moment. rewrite shift_fast_eq, shift_binomial. unfold binsum.
   apply sumn_ext. intros j _. rewrite laplace_get_moment_eq, laplace_moment_centred. reflexivity.
 Qed.
 Lemma laplace_support mu b x : in_support x (laplace_get_support mu b).
